@@ -6,6 +6,18 @@ TECH = "runtime monitoring: post-conditions / lock-step reference models / offli
 
 # id -> (category, technique, level text, level note, design ref)
 CLAIMED = {
+ "C03": ("exploration", "post-condition monitor on every differential operator call: sympy analytic derivative of the generated expression (cross-checked at run time by 4th-order finite differences), row-independence metamorphic monitor",
+         "Held on K operator calls over generated expression trees (constant / linear / bilinear / generic dependence templates), 1-3 variables of dimension 1-3, one and two batch axes, both precisions: values, shape, dtype equal the analytic expression row by row; permuting / dropping / replacing other rows never changes a row.",
+         "sympy + numpy float64 as reference (disagreement between the two references makes a case inconclusive, never a violation); documented shape restrictions of jac/rot/convective/sym_grad/matrix_div respected.", "DESIGN.md 4 C03"),
+ "C08": ("exploration", "metamorphic runtime monitors around the real forward of every point-wise model and of Sequential / Parallel (variable permutation, missing variable, row replacement, batch arrangement, composition equalities, normalization range)",
+         "Held on K generated architectures / spaces / batches: permuted variables give identical outputs, missing variables are rejected, rows are mapped independently, Sequential equals composition, Parallel equals the join of its parts, NormalizationLayer maps the domain's extreme points into [-1,1]^d.",
+         "eval mode, fixed random weights; tolerance floors 1e-6 (float32) widened only by measured rounding noise; Polynomial_FCN with one batch axis (it rejects two).", "DESIGN.md 4 C08"),
+ "C09": ("exploration", "differential monitor fast-trunk vs plain DeepONet with identical weights (outputs, first and second input derivatives, parameter gradients) + einsum reference from the sub-nets' own features + input-form equivalence",
+         "Held on K DeepONet configurations (FC / conv branch, 1-3 output components, 1-6 functions x 1-40 locations, all requires-grad patterns of the custom backward): out[i,j,c] is the branch-trunk inner product, independent of the rest of both batches and of how the branch input was supplied; the fast path equals the plain network to 1e-10 in float64.",
+         "trunk inputs truly copied along the first axis (documented precondition of the fast path); neuron grouping c*K+k fixed as layout convention.", "DESIGN.md 4 C09"),
+ "C11": ("exploration", "offline statistical checker over recorded samples: chi-square goodness of fit on exact partitions (primitives), two-sample chi-square against a twin rejection sampler (compositions), deterministic slab check (LHS), coarse-cell discretisation bound (grids); level 1e-9 with replicate-on-fail",
+         "Held on K recorded samples (one big call, many small calls n in {1,2,10}, by density; per parameter row): no deviation from the named law detected at level 1e-9 outside the recorded known findings (union mixing weights D9, Boolean boundary batches D31, polygon small-n D22, abutting seam D8, union grid split D49).",
+         "Statistical: a sample that passes does not prove the law; power is stated in DESIGN.md 4 C11 (biases of a few percent at N=2e4-1.5e5). Reference samples are exact uniform samples of the float64 twin.", "DESIGN.md 4 C11"),
  "C15": ("exploration", "lock-step reference automaton over random call histories of static / adaptive samplers, with recorded inner proposals; binomial retention test (alpha 1e-9, replicate on failure)",
          "Held on K call histories: a static sampler returns the identical set for exactly resample_interval uses and then a recorded fresh proposal, non-static samplers are fresh every call, adaptive samplers keep exactly the rows at/above the threshold (random variant: with the stated probability) and replace the others by the recorded proposals inside the domain.",
          "StaticSampler.__next__ is modelled as a peek (deliberate override; C15 speaks of sample_points uses); membership of replaced rows judged with own float64 formulas for simple domains.", "DESIGN.md 4 C15"),
